@@ -441,17 +441,22 @@ def check_headers(cx, e_id, f_id):
         # encoded_size selects the class under the same predicates as add
         es = R.body("frame::serial::build::DataFrameBuilder::encoded_size")
         efa = cx.fa(es)
+        from rules import case_values
+        ret_cases = []
         for loc, kind, node in es.defs.get(0, []):
             if kind != "assign":
                 continue
-            e = show(es.rvalue_expr(node["rv"]))
+            here = efa.at(loc) or [frozenset()]
+            for alts, ce in case_values(cx, es, es.rvalue_expr(node["rv"])):
+                ret_cases.append((loc, [frozenset(a) | frozenset(h) for a in alts for h in here], show(ce)))
+        for loc, case_alts, e in ret_cases:
             m = re.match(r"add\((?:frame::serial::)?(DATAGRAM_HEADER_SIZE_[A-Z]+),\[T\]::len\(arg1\.data\)\)|add\(\[T\]::len\(arg1\.data\),(?:frame::serial::)?(DATAGRAM_HEADER_SIZE_[A-Z]+)\)", e)
             if not m:
                 inst.violation(es.path, "encoded_size value", "encoded_size returns `%s`" % e)
                 continue
             cn = (m.group(1) or m.group(2))
             h = R.const_int(S + cn)
-            z = zero_bits_from_facts(efa.at(loc), {"len": r"\[T\]::len\(arg1\.data\)", "window_parent_lead": r"arg1\.window_parent_lead",
+            z = zero_bits_from_facts(case_alts, {"len": r"\[T\]::len\(arg1\.data\)", "window_parent_lead": r"arg1\.window_parent_lead",
                                                    "channel_parent_lead": r"arg1\.channel_parent_lead", "fragment_id_last": r"arg1\.fragment_id_last"})
             wz = {k: v for k, v in classes.get(h, (None, None, {}))[2].items() if k in ("len", "window_parent_lead", "channel_parent_lead", "fragment_id_last")}
             inst.site(es, loc, "encoded_size %s under %s (add: %s)" % (cn, z, wz))
